@@ -632,8 +632,12 @@ def spacing_cases(ctx):
         d = 1 + (i % 9)
         rep = i % 3 == 0
         spec = G.gen_engine_spec(rng, d, mode="grid" if rep else "float", representable=rep,
-                                 force_terms=["Function"] if i % 2 else None, size="small")
+                                 force_terms=["Function"] if i % 2 else ["Discrete"], size="small")
         G.respace(rng, spec)
+        if i % 2 == 0:
+            # pairs of Discrete terms in any order (descending, shuffled, repeated abscissa), terms built through every
+            # construction path: the text lists the pairs as stored and the import must store them as listed
+            G.discrete_layouts(rng, spec, d, "grid" if rep else "float")
         case = {"kind": "engine", "decimals": d, "spec": spec, "representable": rep}
         if rep:
             case["rows"] = G.input_rows(rng, spec, ctx.scale(3, 8))
